@@ -247,3 +247,17 @@ func merkleFolding(c *Ctx, P string) []Obligation {
 	})...)
 	return out
 }
+
+// mapEqualityHelper (C23): "the delegators are unchanged" is decided by types.CompareStringMaps: it must say
+// "different" for maps of different size and for any key whose value differs (or is missing).
+func mapEqualityHelper(c *Ctx, P string) []Obligation {
+	var out []Obligation
+	for _, f := range []string{"types.CompareStringMaps[uint32]"} {
+		out = append(out, c.Rows([]Row{
+			{Prop: P, ID: "delegators-unchanged.size-differs-is-different", Fn: f, Assume: []Lit{F(`^eq\(builtin\.len\(a\), builtin\.len\(b\)\)$`)}, Target: RetNot(0, "false"), Why: "maps of different size are different"},
+			{Prop: P, ID: "delegators-unchanged.true-only-after-the-whole-walk", Fn: f, Assume: []Lit{T(`^next\(range\(a\)\)#0$`)}, Target: RetNot(0, "false"), Why: "the only way to answer 'equal' is to run out of entries"},
+		})...)
+		out = append(out, c.edgeMust(P, "delegators-unchanged.value-differs-is-different", f, `^eq\(b\[next\(range\(a\)\)#1\], next\(range\(a\)\)#2\)$`, false, `ret:^false$`, 1, "an entry whose value in the other map differs (a missing key reads as the zero value) makes the maps different"))
+	}
+	return out
+}
